@@ -67,12 +67,8 @@ func c11Enums(c *core.Ctx) {
 				}
 				switch se.Sel.Name {
 				case "OneOf":
-					if mk, ok := ast.Unparen(as.Rhs[0]).(*ast.CallExpr); ok && len(mk.Args) == 2 {
-						if ln, ok := ast.Unparen(mk.Args[1]).(*ast.CallExpr); ok && len(ln.Args) == 1 {
-							if tv := pkgVar(info, ln.Args[0]); tv != nil {
-								table, pos = tv, as.Pos()
-							}
-						}
+					if tv, _ := enumTable(p, fd, as.Rhs[0], 0); tv != nil {
+						table, pos = tv, as.Pos()
 					}
 					if ap, ok := ast.Unparen(as.Rhs[0]).(*ast.CallExpr); ok {
 						if id, ok := ap.Fun.(*ast.Ident); ok && id.Name == "append" {
@@ -143,6 +139,96 @@ func constString(tv types.TypeAndValue) string {
 }
 
 // pkgVar resolves an identifier / qualified identifier to a package-level variable.
+// enumTable: the package-level table a list of alternatives is sized by —
+// make([]T, len(TABLE)), directly, through locals, or as the result of a module
+// function that sizes its result by one of its parameters (then the argument
+// given for it). The second result is the parameter index when the expression
+// derives from a parameter of fd itself (-1 otherwise).
+func enumTable(p *core.Program, fd *core.FuncDecl, e ast.Expr, depth int) (*types.Var, int) {
+	info := fd.Pkg.TypesInfo
+	if depth > 4 {
+		return nil, -1
+	}
+	e = ast.Unparen(e)
+	if tv := pkgVar(info, e); tv != nil {
+		return tv, -1
+	}
+	switch x := e.(type) {
+	case *ast.Ident:
+		v := core.VarOf(info, x)
+		if v == nil {
+			return nil, -1
+		}
+		if i, isParam := paramIndex(fd.Obj, v); isParam && i >= 0 {
+			if len(core.NewLocalDefs(info, fd.Decl.Body).All(v)) == 0 {
+				return nil, i
+			}
+			return nil, -1
+		}
+		srcs := valueSources(info, core.NewLocalDefs(info, fd.Decl.Body), x, 0)
+		var tv *types.Var
+		pi := -1
+		for _, src := range srcs {
+			if core.VarOf(info, src) == v {
+				return nil, -1
+			}
+			t, i := enumTable(p, fd, src, depth+1)
+			if (t == nil && i < 0) || (tv != nil && t != tv) || (pi >= 0 && i != pi) {
+				return nil, -1
+			}
+			tv, pi = t, i
+		}
+		return tv, pi
+	case *ast.CallExpr:
+		if id, ok := ast.Unparen(x.Fun).(*ast.Ident); ok {
+			if _, isB := info.Uses[id].(*types.Builtin); isB && id.Name == "make" && len(x.Args) >= 2 {
+				if ln, ok := ast.Unparen(x.Args[1]).(*ast.CallExpr); ok && len(ln.Args) == 1 {
+					if lid, ok := ast.Unparen(ln.Fun).(*ast.Ident); ok && lid.Name == "len" {
+						return enumTable(p, fd, ln.Args[0], depth+1)
+					}
+				}
+				return nil, -1
+			}
+		}
+		fn := core.Callee(info, x)
+		if fn == nil || !core.InModule(fn.Pkg()) {
+			return nil, -1
+		}
+		cfd := p.DeclOf(fn)
+		if cfd == nil {
+			return nil, -1
+		}
+		var tv *types.Var
+		pi, n, bad := -1, 0, false
+		ast.Inspect(cfd.Decl.Body, func(m ast.Node) bool {
+			if _, isLit := m.(*ast.FuncLit); isLit {
+				return false
+			}
+			r, isR := m.(*ast.ReturnStmt)
+			if !isR || len(r.Results) != 1 {
+				return true
+			}
+			n++
+			t, i := enumTable(p, cfd, r.Results[0], depth+1)
+			if (t == nil && i < 0) || (n > 1 && (t != tv || i != pi)) {
+				bad = true
+			}
+			tv, pi = t, i
+			return true
+		})
+		if bad || n == 0 {
+			return nil, -1
+		}
+		if tv != nil {
+			return tv, -1
+		}
+		if pi < len(x.Args) {
+			return enumTable(p, fd, x.Args[pi], depth+1)
+		}
+	}
+	return nil, -1
+}
+
 func pkgVar(info *types.Info, e ast.Expr) *types.Var {
 	var id *ast.Ident
 	switch x := ast.Unparen(e).(type) {
